@@ -4,6 +4,7 @@ import (
 	"fmt"
 	"math"
 	"testing"
+	"time"
 
 	age "github.com/craterdog/go-collection-framework/v4/agent"
 	col "github.com/craterdog/go-collection-framework/v4/collection"
@@ -641,6 +642,7 @@ func TestC09(t *testing.T) {
 	}, Exec: execCatalogSort, NoJournal: true}, 0)
 	core.Rapid(r, core.Check[elemSortCase]{Name: "element-types", Gen: genElemSort(24), Exec: execElemSort}, r.N(3000, 30000))
 	core.Rapid(r, core.Check[resortCase]{Name: "values-that-change-between-sorts", Gen: genResort, Exec: execResort}, r.N(1500, 15000))
+	core.DFS(r, core.Check[hugeCase]{Name: "huge-sizes", Gen: genHuge([]string{"Sorter", "Array"}, hugeSizes), Exec: execHuge("C09"), NoJournal: true, HangLimit: 300 * time.Second}, 0)
 	core.Rapid(r, core.Check[defaultSortCase]{Name: "default-ranker", Gen: func(s core.Source) defaultSortCase {
 		c := defaultSortCase{Elem: core.Pick(s, []string{"int", "string"}, "elem"), Keys: []int{}}
 		n := s.Choose(40, "len")
